@@ -7,9 +7,10 @@ Import ListNotations.
 Open Scope string_scope.
 
 (* 1. every dataclass of core/node.py, analyzer/node.py and the plug-in is declared frozen (attribute assignment raises),
-   eq (structural ==, hence __hash__ from the fields) and slots (no instance __dict__ to smuggle state into);
+   eq (structural ==, hence __hash__ from the fields) and slots (no instance __dict__ to smuggle state into), and none writes its
+   own __eq__ / __hash__ / __setattr__ / __init__ ... by hand (a hand-written __eq__ survives @dataclass while __hash__ stays field-based);
    regenerated from the source on every run *)
-Theorem C11_all_frozen : forall ci, In ci schema -> c_frozen ci = true /\ c_eq ci = true /\ c_slots ci = true.
+Theorem C11_all_frozen : forall ci, In ci schema -> c_frozen ci = true /\ c_eq ci = true /\ c_slots ci = true /\ c_overrides ci = [].
 Proof. exact all_frozen. Qed.
 
 (* 2. every default value and class-level node of the schema is itself free of lists *)
